@@ -112,8 +112,24 @@ impl MarkdownEventsReader {
                     self.pop_inline();
                 }
                 FootnoteReference(_) => {}
-                SoftBreak => {}
-                HardBreak => {}
+                SoftBreak => {
+                    self.push_inline(
+                        DocumentInline::SoftBreak(document::SoftBreak {
+                            inline_range: self.to_inline_range(range.clone()),
+                        }),
+                        self.to_line_range(range),
+                    );
+                    self.pop_inline();
+                }
+                HardBreak => {
+                    self.push_inline(
+                        DocumentInline::LineBreak(document::LineBreak {
+                            inline_range: self.to_inline_range(range.clone()),
+                        }),
+                        self.to_line_range(range),
+                    );
+                    self.pop_inline();
+                }
                 Rule => {
                     self.push_block(DocumentBlock::HorizontalRule(HorizontalRule {
                         line_range: self.to_line_range(range),
